@@ -99,13 +99,18 @@ fn run<T: Sc>(case: &C04Case) -> Check {
         let obj = half_ssq(&r);
         let tol = (r.len() as f64 + 64.0) * T::unit();
         let rep = fo.report.objective.f();
-        if !((rep - obj).abs() <= tol * obj + 8.0 * T::min_positive_value().f()) {
+        // ½|r|² beyond the largest finite value of the scalar type (f32 with weights of 1e12: 1e44)
+        // cannot be reported in that type: nothing is demanded of the number
+        let representable = |v: f64| v <= T::huge() / 4.0;
+        if !representable(obj) || r0.as_ref().is_some_and(|r0| !representable(half_ssq(r0))) {
+            out.skip("c04.objective:beyond-the-range-of-the-scalar-type");
+        } else if !((rep - obj).abs() <= tol * obj + 8.0 * T::min_positive_value().f()) {
             return Err(Fail::new("c04.objective", format!("reported objective {rep:e} differs from ½|residuals|² = {obj:e} of the returned problem")));
         }
         match &r0 {
             Some(r0) => {
                 let obj0 = half_ssq(r0);
-                if !(obj <= obj0 * (1.0 + tol) + 8.0 * T::min_positive_value().f()) {
+                if representable(obj) && representable(obj0) && !(obj <= obj0 * (1.0 + tol) + 8.0 * T::min_positive_value().f()) {
                     return Err(Fail::new("c04.worse_than_start", format!("objective after a successful fit {obj:e} exceeds the objective at the initial guess {obj0:e}")));
                 }
             }
